@@ -184,7 +184,8 @@ def run_scripts(ctx, binp, level, conf, scripts, timeout=300):
                 lines.append(to_line(c))
                 owner.append((i, j))
         r = ctx.run([binp, level] + [str(x) for x in conf], input="\n".join(lines) + "\n", timeout=timeout,
-                    env={"ASAN_OPTIONS": "detect_leaks=0:abort_on_error=0", "UBSAN_OPTIONS": "print_stacktrace=1"})
+                    env={"ASAN_OPTIONS": "detect_leaks=0:abort_on_error=0", "UBSAN_OPTIONS": "print_stacktrace=1",
+                         "REPLAY_ALARM_S": "4" if ctx.quick else "10"})
         if r.returncode == 3:
             raise vlib.ToolError("replay_udict: " + (r.stderr or "")[-1500:])
         text = r.stdout or ""
@@ -351,8 +352,11 @@ def report(ctx, binp, level, conf, cmds, line, want, source):
             "'%s'%s but the specification (Udict.tla) requires %s"
             % (level, conf[0], conf[1], conf[2], "; ".join(fmt(e) for e in h3[1:l3 - 1]), fmt(bad),
                (" (" + bad["why"] + ")") if "why" in bad else "", json.dumps(want)))
+    if binp.endswith("_ndebug"):
+        key += ";NDEBUG"
+        what = "(library compiled with -DNDEBUG) " + what
     ctx.violation(key, what, {"level": level, "conf": list(conf), "cmds": small, "trace": h3[:l3],
-                              "expected": want, "source": source,
+                              "expected": want, "source": source, "ndebug": binp.endswith("_ndebug"),
                               "cmd": "replay_udict %s %d %d %d" % ((level,) + tuple(conf))})
 
 
@@ -587,9 +591,12 @@ def random_traces(ctx, binp, nexec, length, tag):
 
 
 # ---------------------------------------------------------------------- main
-def build(ctx):
-    return ctx.cc("replay_udict", ["replay_udict.c", "lib/upipe/udict_inline.c", "lib/upipe/umem_alloc.c",
-                                   "lib/upipe/uref_std.c"], san="asan")
+def build(ctx, ndebug=False):
+    """ndebug: library and harness compiled with -DNDEBUG (assert() compiled out - the configuration of a release
+    build; the repository's tests all #undef NDEBUG, so nothing they run sees it)."""
+    return ctx.cc("replay_udict_ndebug" if ndebug else "replay_udict",
+                  ["replay_udict.c", "lib/upipe/udict_inline.c", "lib/upipe/umem_alloc.c", "lib/upipe/uref_std.c"],
+                  san="asan", flags=["-DNDEBUG"] if ndebug else [])
 
 
 def parallel(jobs):
@@ -717,14 +724,19 @@ def _run(ctx):
     nexec, nev, nrej = random_traces(ctx, binp, 48 if q else 720, 500 if q else 1500, "rnd")
     ctx.extra["random_executions"] = nexec
     ctx.extra["random_events_validated"] = nev
+    # 4. the same, with assert() compiled out (-DNDEBUG: a release build of the library)
+    binp2 = build(ctx, ndebug=True)
+    nexec2, nev2, nrej2 = random_traces(ctx, binp2, 24 if q else 360, 500 if q else 1500, "rnd_ndebug")
+    ctx.extra["random_executions_ndebug_build"] = nexec2
+    ctx.extra["random_events_validated_ndebug_build"] = nev2
     ctx.extra["manager_configurations"] = [{"pool": c[0], "min_size": c[1], "extra_size": c[2]} for c in CONFS]
     ctx.extra["api_levels"] = LEVELS
 
 
 def replay(ctx, rp):
     """bin/check C10 --replay replays/C10_xxx.json"""
-    binp = build(ctx)
     r = rp["replay"]
+    binp = build(ctx, ndebug=bool(r.get("ndebug")))
     h = run_scripts(ctx, binp, r["level"], tuple(r["conf"]), [r["cmds"]])[0]
     line = judge_strict(ctx, h, "replay")
     for e in h[1:]:
